@@ -114,7 +114,7 @@ class _:
 
     @staticmethod
     def modifies(o):
-        return [("list", ROW, o.self.rows)]
+        return [("list-append", ROW, o.self.rows)]
 
     @staticmethod
     def ensures(o, n, res):
